@@ -29,7 +29,23 @@ fn write_archive(dir: &Path, bands: &Value) {
             if kind == "Symlink" {
                 j["target"] = e["target"].clone();
             }
-            if kind == "File" {
+            if kind == "File" && e["blocks"].is_array() {
+                // a file stored in several blocks: content = bytes_for(class, sum), cut at the given lengths
+                let lens: Vec<usize> = e["blocks"].as_array().unwrap().iter().map(|l| l.as_u64().unwrap() as usize).collect();
+                let all = bytes_for(e["class"].as_u64().unwrap_or(1), lens.iter().sum());
+                let mut addrs = Vec::new();
+                let mut off = 0;
+                for l in lens {
+                    let data = &all[off..off + l];
+                    off += l;
+                    let h = hex::encode(blake2_rfc::blake2b::blake2b(64, &[], data).as_bytes());
+                    let sub = dir.join("d").join(&h[..3]);
+                    std::fs::create_dir_all(&sub).unwrap();
+                    std::fs::write(sub.join(&h), snap::raw::Encoder::new().compress_vec(data).unwrap()).unwrap();
+                    addrs.push(json!({"hash": h, "len": l}));
+                }
+                j["addrs"] = json!(addrs);
+            } else if kind == "File" {
                 let len = e["size"].as_u64().unwrap_or(0) as usize;
                 if len > 0 {
                     let data = bytes_for(e["class"].as_u64().unwrap_or(1), len);
@@ -60,6 +76,10 @@ pub fn run(sc: &Value) -> Value {
     // sandbox/out/sentinel and sandbox/dest (state per scenario); the absolute-target sentinel lives in abs/
     std::fs::create_dir_all(sandbox.join("out")).unwrap();
     std::fs::write(sandbox.join("out/sentinel"), b"sentinel").unwrap();
+    std::fs::create_dir_all(sandbox.join("out/sub")).unwrap();
+    std::fs::write(sandbox.join("out/sub/sentinel2"), b"sentinel2").unwrap();
+    let _ = std::os::unix::fs::chown(sandbox.join("out/sub/sentinel2"), Some(54321), Some(54322));
+    let _ = std::os::unix::fs::chown(sandbox.join("out/sub"), Some(54321), Some(54322));
     // give the sentinels a foreign owner so that an ownership change through a followed link is visible (needs root)
     let _ = std::os::unix::fs::chown(sandbox.join("out/sentinel"), Some(54321), Some(54322));
     let _ = std::os::unix::fs::chown(sandbox.join("out"), Some(54321), Some(54322));
@@ -76,12 +96,23 @@ pub fn run(sc: &Value) -> Value {
     if let Some(list) = sc["damage"].as_array() {
         for d in list {
             let f = d["file"].as_str().unwrap();
-            let target = if let Some(epath) = f.strip_prefix("block:") {
-                // the block of the named file entry: recompute its hash
+            let target = if let Some(spec) = f.strip_prefix("block:") {
+                // the block of the named file entry (optionally "#k" for the k-th block of a multi-block file): recompute its hash
+                let (epath, nth) = match spec.split_once('#') {
+                    Some((p, k)) => (p, Some(k.parse::<usize>().unwrap())),
+                    None => (spec, None),
+                };
                 let mut found = None;
                 for b in sc["bands"].as_array().unwrap() {
                     for e in b["entries"].as_array().unwrap() {
-                        if e["path"] == epath {
+                        if e["path"] == epath && e["blocks"].is_array() {
+                            let lens: Vec<usize> = e["blocks"].as_array().unwrap().iter().map(|l| l.as_u64().unwrap() as usize).collect();
+                            let all = bytes_for(e["class"].as_u64().unwrap_or(1), lens.iter().sum());
+                            let k = nth.unwrap_or(0);
+                            let off: usize = lens[..k].iter().sum();
+                            let h = hex::encode(blake2_rfc::blake2b::blake2b(64, &[], &all[off..off + lens[k]]).as_bytes());
+                            found = Some(arch.join("d").join(&h[..3]).join(&h));
+                        } else if e["path"] == epath {
                             let data = bytes_for(e["class"].as_u64().unwrap_or(1), e["size"].as_u64().unwrap_or(0) as usize);
                             let h = hex::encode(blake2_rfc::blake2b::blake2b(64, &[], &data).as_bytes());
                             found = Some(arch.join("d").join(&h[..3]).join(&h));
@@ -124,6 +155,50 @@ pub fn run(sc: &Value) -> Value {
             let rr = restore(&archive, &dest, opts, rm.clone()).await;
             let errs = rm.take_errors().iter().map(|e| format!("{e}")).collect::<Vec<_>>();
             let mut out = json!({"result": match &rr { Ok(_) => "Ok".to_string(), Err(e) => format!("Err:{e:?}") }, "errors": errs});
+            if let Some(files) = sc["backup_after"].as_array() {
+                // a new backup of a source whose files carry the bytes the archive was built from, then restore the new version
+                let src = tmp.path().join("src");
+                std::fs::create_dir_all(&src).unwrap();
+                for f in files {
+                    let p = src.join(f["path"].as_str().unwrap().trim_start_matches('/'));
+                    if f["kind"] == "Dir" {
+                        std::fs::create_dir_all(&p).unwrap();
+                    } else {
+                        std::fs::write(&p, bytes_for(f["class"].as_u64().unwrap_or(1), f["size"].as_u64().unwrap_or(0) as usize)).unwrap();
+                    }
+                }
+                for f in files.iter().rev() {
+                    let p = src.join(f["path"].as_str().unwrap().trim_start_matches('/'));
+                    if let Some(mode) = f["mode"].as_u64() {
+                        std::fs::set_permissions(&p, std::os::unix::fs::PermissionsExt::from_mode(mode as u32)).unwrap();
+                    }
+                    let ft = filetime::FileTime::from_unix_time(f["mtime"][0].as_i64().unwrap(), f["mtime"][1].as_u64().unwrap() as u32);
+                    filetime::set_file_times(&p, ft, ft).unwrap();
+                }
+                let bm = TestMonitor::arc();
+                let br = backup(&archive, &src, &BackupOptions::default(), bm.clone()).await;
+                let berrs = bm.take_errors().iter().map(|e| format!("{e}")).collect::<Vec<_>>();
+                let dest2 = tmp.path().join("dest2");
+                let rm2 = TestMonitor::arc();
+                let archive2 = Archive::open_path(&arch).await.unwrap();
+                let rr2 = restore(&archive2, &dest2, RestoreOptions::default(), rm2.clone()).await;
+                let rerrs = rm2.take_errors().iter().map(|e| format!("{e}")).collect::<Vec<_>>();
+                let mut mismatches = Vec::new();
+                for f in files {
+                    if f["kind"] == "Dir" {
+                        continue;
+                    }
+                    let rel = f["path"].as_str().unwrap().trim_start_matches('/');
+                    let want = std::fs::read(src.join(rel)).unwrap();
+                    match std::fs::read(dest2.join(rel)) {
+                        Ok(got) if got == want => {}
+                        Ok(_) => mismatches.push(format!("{rel}: different bytes")),
+                        Err(e) => mismatches.push(format!("{rel}: {e}")),
+                    }
+                }
+                out["after_backup"] = json!({"ok": br.is_ok(), "stat_errors": br.as_ref().map(|s| s.errors).unwrap_or(0), "errors": berrs,
+                    "restore_ok": rr2.is_ok(), "restore_errors": rerrs, "mismatches": mismatches});
+            }
             if let Some(quick) = validate_quick {
                 let vm = TestMonitor::arc();
                 let vr = archive.validate(&ValidateOptions { skip_block_hashes: quick }, vm.clone()).await;
